@@ -51,6 +51,19 @@ static struct video_sink_s g_sink;
 
 #define UNREAD (kg.committed - kg.consumed)
 
+/* The other threads, made explicit (the loop contracts havoc the same variables; the bounded
+ * fall-back run of this unit has no loop contracts and needs the steps spelled out): the
+ * source may finish (its last commit is behind it) and, only after that, raise the sink's
+ * stop flag (rely; its guarantee is [C07.stop-flags-only-after-last-commit]). */
+static void
+env_step(void)
+{
+    if (!g_producer_done && nd_bool())
+        g_producer_done = 1;
+    if (g_producer_done && nd_bool())
+        g_sink.is_stopping = 1;
+}
+
 /* ------------------------------------------------------------------ stub contracts */
 struct slice
 channel_read_map(struct channel* self, struct channel_reader* reader)
@@ -63,6 +76,7 @@ channel_read_map(struct channel* self, struct channel_reader* reader)
         VASSUME(more <= BIG && kg.committed <= BIG);
         kg.committed += more;
     }
+    env_step();
     if (UNREAD == 0) {
         /* contract: an empty region is returned only when everything committed was consumed */
         return (struct slice){ 0, 0 };
@@ -159,6 +173,7 @@ throttler_init(float seconds_per_loop)
 void
 throttler_wait(struct throttler* self)
 {
+    env_step();
 }
 
 /* callees of the parts of sink.c this harness does not exercise */
@@ -214,6 +229,11 @@ void
 h_video_sink_thread(void)
 {
     memset(&kg, 0, sizeof(kg));
+    /* any point of an acquisition: some bytes committed, a prefix of them consumed and appended */
+    kg.committed = nd_ulong();
+    kg.consumed = nd_ulong();
+    VASSUME(kg.committed <= BIG && kg.consumed <= kg.committed);
+    kg.appended = kg.consumed;
     g_producer_done = nd_bool();
     g_buf = malloc(1);
     VASSUME(g_buf != 0);
